@@ -887,10 +887,27 @@ fn partial_version<'s>(input: &mut &'s str) -> PResult<Partial, SemverParseError
     } else {
         (vec![], vec![])
     };
+    // Once a component is a wildcard, everything after it is one too (`1.x.3` is `1.x`),
+    // and an x-range carries no prerelease or build metadata.
+    let minor = if major.is_some() {
+        minor.flatten()
+    } else {
+        None
+    };
+    let patch = if minor.is_some() {
+        patch.flatten()
+    } else {
+        None
+    };
+    let (pre, build) = if patch.is_some() {
+        (pre, build)
+    } else {
+        (vec![], vec![])
+    };
     Ok(Partial {
         major,
-        minor: minor.flatten(),
-        patch: patch.flatten(),
+        minor,
+        patch,
         pre_release: pre,
         build,
     })
